@@ -489,7 +489,12 @@ func (a *signAn) inState(fn *ssa.Function, b *ssa.BasicBlock, outs map[*ssa.Basi
 				acc.cells[k] = sgJoin(v, ov)
 			} else if val, wr := acc.rep[k]; wr && acc.written[k] {
 				// rewritten in place on this side only: on the other side the cell still has
-				// the sign its definition gives it
+				// the sign its definition gives it - except for a cell that is only looked at by
+				// the exit obligation "if this function rewrote it, it left it non-negative": a
+				// path that did not rewrite it has nothing to answer for
+				if a.exitOnly(fn, k) {
+					continue
+				}
 				acc.cells[k] = sgJoin(v, a.signOf(fn, val, es, outs, 0))
 			} else {
 				delete(acc.cells, k)
@@ -500,6 +505,11 @@ func (a *signAn) inState(fn *ssa.Function, b *ssa.BasicBlock, outs map[*ssa.Basi
 				continue
 			}
 			if val, wr := es.rep[k]; wr && es.written[k] {
+				if a.exitOnly(fn, k) {
+					acc.cells[k] = ov
+					acc.rep[k] = val
+					continue
+				}
 				tmp := acc.clone()
 				delete(tmp.cells, k)
 				acc.cells[k] = sgJoin(ov, a.signOf(fn, val, tmp, outs, 0))
@@ -516,6 +526,20 @@ func (a *signAn) inState(fn *ssa.Function, b *ssa.BasicBlock, outs map[*ssa.Basi
 		}
 	}
 	return acc
+}
+
+// exitOnly: the cell is one of those the configuration only constrains at the function's
+// returns (a balance this function may rewrite).
+func (a *signAn) exitOnly(fn *ssa.Function, key string) bool {
+	if a.cfg.MustBeNNAtReturn == nil {
+		return false
+	}
+	for _, v := range a.cfg.MustBeNNAtReturn(fn) {
+		if cellKey(v) == key {
+			return true
+		}
+	}
+	return false
 }
 
 // edgeState refines p's out-state by the condition of the edge p->b.
